@@ -70,7 +70,7 @@ class C10(Property):
         out += ju.pending_plain_cases(rng, 80 if thorough else 16)
         # which peers are SELECTED follows the live claims: claims that change at run time (incl. to none), a more specific claim that
         # appears later, MAC-range claims in router mode on a tap device
-        out += [l for l in ru.reannounce_cases(rng, 30 if thorough else 8)] + ru.nested_cases(rng, 12 if thorough else 4) + ru.taprouter_cases(rng, 16 if thorough else 5)
+        out += [l for l in ru.reannounce_cases(rng, 30 if thorough else 8)] + ru.nested_cases(rng, 12 if thorough else 4) + ru.taprouter_cases(rng, 16 if thorough else 5) + ru.close_cases(rng, 16 if thorough else 5)
         return out
 
     def model_line(self, line, impl_out):
@@ -93,7 +93,7 @@ class C10(Property):
             return "driver returned %d results for %d ops" % (len(outs), len(ops))
         if ju.family(line):
             return ju.oracle(line, impl_out)
-        if " Q.2." in line or any((" %s " % m) in line for m in (ru.NESTED_MARK, ru.TAPROUTER_MARK)):
+        if " Q.2." in line or any((" %s " % m) in line for m in (ru.NESTED_MARK, ru.TAPROUTER_MARK, ru.CLOSE_MARK)):
             return ru.oracle(line, impl_out)
         nnodes = sum(1 for t in ops if t.startswith("N."))
         ntoks = [t.split(".") for t in ops if t.startswith("N.")]
